@@ -203,22 +203,6 @@ func (s *Sys) CheckState(probe bool) (verdict string) {
 			}
 		}
 	}
-	// (not part of the property) an orphan all of whose inputs are available
-	for _, h := range sortedHashes(sn.Hook.Orphans) {
-		u := s.W.ByID[h]
-		avail := true
-		for _, in := range u.Ref.Ins {
-			_, inChain := utxo[in.Prev]
-			_, inPool := pool[in.Prev.Hash]
-			if len(spenders[in.Prev]) > 0 || !(inChain || inPool) {
-				avail = false
-			}
-		}
-		if avail {
-			s.obs("orphan_with_all_inputs_available:" + u.Ref.Name)
-		}
-	}
-
 	// --- I5: the pooled set, in dependency order, is a valid next block
 	best := s.bc.BestSnapshot()
 	if best.Height < s.maxHeight || best.MedianTime.Before(s.maxMTP) {
